@@ -86,6 +86,13 @@ MEMBERS = {
     "global_read": (["gr = G + a"], ["K.gr"]),
     "closure_method": (["def outerm(self):", "    t = a", "    def inner():", "        nonlocal t", "        t += b", "        return t", "    return inner()"], ["K().outerm()"]),
     "docstring": (["'''doc'''", "dz = a"], ["K.dz"]),
+    # hooks that Python wraps implicitly (only if they are plain functions when the class is created)
+    "class_getitem": (["def __class_getitem__(cls, item):", "    return (cls.__name__, item, a)"], ["K[b]", "Sub[1]"]),
+    "class_getitem_explicit_cm": (["@classmethod", "def __class_getitem__(cls, item):", "    return (cls.__name__, item)"], ["K[a]", "Sub[b]"]),
+    "init_subclass_explicit_cm": (["@classmethod", "def __init_subclass__(cls, **kw):", "    super().__init_subclass__(**kw)", "    cls.ehook = a"], ["Sub.ehook", "mksub(K, 'S4').ehook"]),
+    # the class body still sees the EARLIER binding of the class name (third element: statements
+    # placed before the class statement in the same scope)
+    "reads_earlier_binding": (["prev = K.ca0 + a", "def old(self):", "    return self.prev"], ["K.prev", "K().old()", "hasattr(K, 'ca0')"], ["class K:", "    ca0 = 7"]),
 }
 NEED_BASE_M = {"super0", "super2", "super_cm", "super_in_nested_function"}
 DEFAULT_HEADER = ("one", "none", "none", "0", "module")
@@ -120,13 +127,16 @@ def render(header, members):
     head = "class K%s:" % ("(" + ", ".join(args) + ")" if args else "")
     body = []
     obs = []
+    setup = []
     for m in members:
-        lines, o = MEMBERS[m]
+        lines, o = MEMBERS[m][:2]
         body += lines
         obs += o
+        if len(MEMBERS[m]) > 2:
+            setup += MEMBERS[m][2]
     if not body:
         body = ["pass"]
-    cls_lines = DECOS[deco] + [head] + ["    " + l for l in body]
+    cls_lines = setup + DECOS[deco] + [head] + ["    " + l for l in body]
     tail = ["class Sub(K):", "    pass"]
     obs_lines = ["log('cls', K)", "log('mro', [c.__name__ for c in K.__mro__], type(K).__name__, getattr(K, 'meta_kw', None), getattr(K, 'tag', None))"]
     for o in obs:
